@@ -13,6 +13,11 @@ func init() { registry["C20"] = checkC20 }
 // bodyPaths enumerates the acyclic paths through one iteration of the loop with header h (from the body entry
 // back to the header or out of the loop) and reports, per path, how many instructions satisfy each predicate.
 func bodyPaths(h *ssa.BasicBlock, preds []func(ssa.Instruction) bool, visit func(counts []int, exits bool)) {
+	bodyPathsFrom(h, h.Succs[0], preds, visit)
+}
+
+// bodyPathsFrom: as bodyPaths, with the successor of the header that enters the body given explicitly.
+func bodyPathsFrom(h, entry *ssa.BasicBlock, preds []func(ssa.Instruction) bool, visit func(counts []int, exits bool)) {
 	body := loopBlocks(h)
 	var walk func(b *ssa.BasicBlock, counts []int, seen map[*ssa.BasicBlock]bool, depth int)
 	walk = func(b *ssa.BasicBlock, counts []int, seen map[*ssa.BasicBlock]bool, depth int) {
@@ -47,7 +52,7 @@ func bodyPaths(h *ssa.BasicBlock, preds []func(ssa.Instruction) bool, visit func
 			visit(c2, true)
 		}
 	}
-	walk(h.Succs[0], make([]int, len(preds)), map[*ssa.BasicBlock]bool{h.Succs[0]: true}, 0)
+	walk(entry, make([]int, len(preds)), map[*ssa.BasicBlock]bool{entry: true}, 0)
 }
 
 func checkC20(c *Check) {
@@ -84,16 +89,30 @@ func checkC20(c *Check) {
 			why := "the queue is cleared without a preceding loop that answers each element"
 			for _, b := range fn.Blocks {
 				ifi, isIf := b.Instrs[len(b.Instrs)-1].(*ssa.If)
-				if !isIf || !strings.HasSuffix(nrm(Sym(ifi.Cond)), "< builtin.len(p:m."+queue+"))") {
+				if !isIf {
 					continue
 				}
-				exit := b.Succs[1]
+				// the loop's bound test, in either polarity: `i < len(queue)` continues into the body, `i >= len(queue)`
+				// leaves the loop
+				cs := nrm(Sym(ifi.Cond))
+				entry, exit := b.Succs[0], b.Succs[1]
+				switch {
+				case strings.HasSuffix(cs, "< builtin.len(p:m."+queue+"))"):
+				case strings.HasSuffix(cs, ">= builtin.len(p:m."+queue+"))") && loopHeaderOf(b) != nil:
+					entry, exit = b.Succs[1], b.Succs[0]
+				default:
+					continue
+				}
 				if !(exit == st.Block() || exit.Dominates(st.Block())) {
 					continue
 				}
 				// no other header for the same queue between
 				okBody := true
-				bodyPaths(b, []func(ssa.Instruction) bool{
+				hdr := b
+				if lh := loopHeaderOf(b); lh != nil && lh != b && entry == b.Succs[1] {
+					hdr = lh
+				}
+				bodyPathsFrom(hdr, entry, []func(ssa.Instruction) bool{
 					func(i ssa.Instruction) bool { // answered
 						s, isS := i.(*ssa.Send)
 						if !isS {
@@ -126,7 +145,7 @@ func checkC20(c *Check) {
 	// (b) enqueue on receive
 	{
 		ok := false
-		eachInstr(run, func(i ssa.Instruction) {
+		eachInstrDeep(run, func(i ssa.Instruction) {
 			if st, isSt := i.(*ssa.Store); isSt && nrm(Sym(st.Addr)) == "&p:m.requests" {
 				v := Sym(st.Val)
 				if strings.HasPrefix(nrm(v), "builtin.append(p:m.requests, [") && strings.Contains(v, "Select#") {
@@ -299,7 +318,24 @@ func checkC20(c *Check) {
 					x, isC := in.(ssa.CallInstruction)
 					return isC && calleeMethod(x) == "maybeFetchData"
 				}
-				if !mustPassFrom(run, at, h.Instrs[0], pred) {
+				// queued inside a new helper: the trigger may follow inside that helper, on every way out of it
+				inHelper := false
+				if hf := st.Parent(); hf != run && hf.Parent() == nil {
+					inHelper = true
+					nout := 0
+					for _, b := range hf.Blocks {
+						if r, isR := b.Instrs[len(b.Instrs)-1].(*ssa.Return); isR && reachableFrom(st, r) {
+							nout++
+							if !mustPassFrom(hf, st, r, pred) {
+								inHelper = false
+							}
+						}
+					}
+					if nout == 0 {
+						inHelper = false
+					}
+				}
+				if !inHelper && !mustPassFrom(run, at, h.Instrs[0], pred) {
 					okq = false
 				}
 			})
